@@ -1,7 +1,11 @@
 package main
 
 import (
+	"crypto/sha256"
+	"encoding/hex"
 	"encoding/json"
+	"os/exec"
+	"sync"
 	"fmt"
 	"go/types"
 	"os"
@@ -238,6 +242,9 @@ func (g *Gen) runAll(fnFilter, prop, dump string) *Report {
 		}
 		return false
 	})
+	if g.depsOut != "" {
+		g.depsAudit(fcs)
+	}
 	for _, fc := range fcs {
 		fr := FnRec{Name: fc.spec.Name, Mode: fc.spec.Mode, Level: fc.spec.Level, Errors: fc.errs, Tags: fc.spec.allTags(), GoName: fc.fn.Name(), Lemma: fc.spec.Lemma}
 		if fc.fn.Signature.Recv() != nil {
@@ -445,4 +452,133 @@ func goExpr(e *SExpr, g *Gen) (string, bool) {
 		return "", false
 	}
 	return "", false
+}
+
+// depsAudit: for every discharged proof obligation, ask z3 for an unsat core over the contract-derived assumptions
+// (callee postconditions, own preconditions, loop invariants) and report the clauses a proof tagged with property P
+// rests on that are not themselves tagged P (a change breaking such a clause would be reported under another
+// property only).
+func (g *Gen) depsAudit(fcs []*FnCtx) {
+	type depRec struct {
+		Owner   string   `json:"owner"`
+		Kind    string   `json:"kind"`
+		Text    string   `json:"text"`
+		Tags    []string `json:"tags"`
+		Missing []string `json:"missing"`
+		Line    int      `json:"line"`
+	}
+	type oRec struct {
+		Oblig string   `json:"obligation"`
+		Tags  []string `json:"tags"`
+		Core  string   `json:"core"`
+		Deps  []depRec `json:"deps"`
+	}
+	var mu sync.Mutex
+	var out []oRec
+	var wg sync.WaitGroup
+	sem := make(chan struct{}, 12)
+	for _, fc := range fcs {
+		for _, o := range fc.obligs {
+			if o.Status != "discharged" || o.Cover || len(o.Tags) == 0 {
+				continue
+			}
+			fc, o := fc, o
+			wg.Add(1)
+			go func() {
+				defer wg.Done()
+				sem <- struct{}{}
+				defer func() { <-sem }()
+				q, names := fc.coreQuery(o)
+				if len(names) == 0 {
+					return
+				}
+				h := sha256.Sum256([]byte(q))
+				f := filepath.Join(scratchDir, "core-"+hex.EncodeToString(h[:8])+".smt2")
+				os.WriteFile(f, []byte(q), 0644)
+				defer os.Remove(f)
+				cmd := exec.Command("z3-new", "-T:20", f)
+				b, _ := cmd.CombinedOutput()
+				txt := string(b)
+				rec := oRec{Oblig: o.Name, Tags: o.Tags}
+				lines := strings.SplitN(txt, "\n", 2)
+				rec.Core = strings.TrimSpace(lines[0])
+				if rec.Core == "unsat" && len(lines) > 1 {
+					core := strings.NewReplacer("(", " ", ")", " ").Replace(lines[1])
+					for _, nm := range strings.Fields(core) {
+						a := names[nm]
+						if a == nil {
+							continue
+						}
+						tg := a.cl.Tags
+						var miss []string
+						for _, t := range o.Tags {
+							if !hasTag(tg, t) {
+								miss = append(miss, t)
+							}
+						}
+						rec.Deps = append(rec.Deps, depRec{Owner: a.owner, Kind: a.cl.Kind, Text: a.cl.Text, Tags: tg, Missing: miss, Line: a.cl.Line})
+					}
+				}
+				mu.Lock()
+				out = append(out, rec)
+				mu.Unlock()
+			}()
+		}
+	}
+	wg.Wait()
+	sort.Slice(out, func(i, j int) bool { return out[i].Oblig < out[j].Oblig })
+	b, _ := json.MarshalIndent(out, "", " ")
+	os.WriteFile(g.depsOut+".detail", b, 0644)
+	// proposals: clauses of verified (not trusted) contracts that lack a tag of a proof resting on them; only proofs
+	// inside functions that belong to the property's argument count (a function none of whose clauses carries P holds
+	// P-tagged obligations only because a callee's precondition is tagged P)
+	props := map[string]*DepTag{}
+	for _, r := range out {
+		fn := strings.SplitN(r.Oblig, "/", 2)[0]
+		fsp := g.specs.Funcs[fn]
+		if fsp == nil {
+			continue
+		}
+		ft := fsp.allTags()
+		for _, d := range r.Deps {
+			osp := g.specs.Funcs[d.Owner]
+			if osp == nil || osp.Trusted {
+				continue
+			}
+			eff := d.Tags
+			if len(eff) == 0 {
+				eff = osp.allTags()
+			}
+			for _, t := range r.Tags {
+				if hasTag(eff, t) || !hasTag(ft, t) {
+					continue
+				}
+				k := d.Owner + "|" + d.Kind + "|" + d.Text
+				p := props[k]
+				if p == nil {
+					p = &DepTag{Owner: d.Owner, Kind: d.Kind, Text: d.Text}
+					props[k] = p
+				}
+				if !hasTag(p.Add, t) {
+					p.Add = append(p.Add, t)
+				}
+				if len(p.Why) < 4 {
+					p.Why = append(p.Why, r.Oblig+" ["+t+"]")
+				}
+			}
+		}
+	}
+	var pl []*DepTag
+	for _, p := range props {
+		sort.Strings(p.Add)
+		pl = append(pl, p)
+	}
+	sort.Slice(pl, func(i, j int) bool {
+		if pl[i].Owner != pl[j].Owner {
+			return pl[i].Owner < pl[j].Owner
+		}
+		return pl[i].Text < pl[j].Text
+	})
+	b, _ = json.MarshalIndent(pl, "", " ")
+	os.WriteFile(g.depsOut, b, 0644)
 }
